@@ -84,8 +84,8 @@ def showRes : Option Res → String
   | none => "EXC"
   | some r => s!"{r.ty.show};{r.errs};{b2s r.unp}"
 
-def annClasses (e : AnnExpr) : String :=
-  let cs := (if D13_starUnpack e then ["starUnpack"] else [])
+def annClasses (env : NameEnv) (e : AnnExpr) : String :=
+  let cs := (if D13_starUnpack e then ["starUnpack"] else []) ++ (if !stableNames env e then ["reboundName"] else [])
   if cs.isEmpty then "-" else ",".intercalate cs
 
 def toTarget : Sexp → Option NameTarget
@@ -196,7 +196,7 @@ def handle (line : String) : String :=
       let obj := tnorm (resolveV (pyLookup env) e)
       s!"ast={showRes (astEval (defaultLookup env) au e)} strg={showRes (astEval (globalsLookup env) au e)} " ++
       s!"rt={showRes (rtEval (defaultLookup env) au obj)} vis={showRes (visEval env au e)} " ++
-      s!"visq={showRes (visEval env au (.str e))} tn={showAnn obj} S={b2s (Supported e)} D={annClasses e} R={annRClasses env e}"
+      s!"visq={showRes (visEval env au (.str e))} tn={showAnn obj} S={b2s (Supported e)} D={annClasses env e} R={annRClasses env e}"
     | _, _ => "bad-op"
   | some [.atom "sig", env, d] =>
     match toEnv env, toDefArgs d with
